@@ -131,3 +131,19 @@ package diagnostic
 //@    (and (= (callarg "FileSet).Position" 0 1) (mcall Pos (old trigger.Consumer.Expr)))
 //@         (= (. c position Filename) (call |go.uber.org/nilaway/util/tokenhelper.RelToCwd| (. raw Filename)))
 //@         (= (. c position Line) (. raw Line)) (= (. c position Column) (. raw Column)) (= (. c position Offset) (. raw Offset))))
+
+//@ -- C11 (range computation): every iteration over a comment either leaves the collected ranges alone (the comment is
+//@ -- not a nolint for NilAway) or appends exactly one range: the cwd-relative file of the commented node and the
+//@ -- lines of the node's first and last position; ranges collected earlier are kept.
+//@ define (posOf fset p) (call |(*go/token.FileSet).Position| fset p)
+//@ func run
+//@ prop C11 C18
+//@ modifies *
+//@ loop 3 step nolint-comment-adds-exactly-its-node-range (let ((before (athead ranges)) (fset (. (local pass) Pass Fset)))
+//@    (ite (call nolintContainsNilAway (. (local comm) Text))
+//@      (and (= (len ranges) (+ (len before) 1))
+//@           (= (. (idx ranges (len before)) Filename) (call |go.uber.org/nilaway/util/tokenhelper.RelToCwd| (. (posOf fset (mcall Pos (local node))) Filename)))
+//@           (= (. (idx ranges (len before)) From) (. (posOf fset (mcall Pos (local node))) Line))
+//@           (= (. (idx ranges (len before)) To) (. (posOf fset (mcall End (local node))) Line))
+//@           (forall ((j Int)) (=> (and (<= 0 j) (< j (len before))) (= (idx ranges j) (atloop (idx before j))))))
+//@      (= ranges before)))
